@@ -30,6 +30,15 @@ def main():
                 C.log("generator %s failed:\n%s" % (tool, (out + e)[-2000:]))
             else:
                 C.write_if_changed(os.path.join(C.COQ, "gen", outfile), out)
+    try:
+        from checks import c16 as _c16
+        ok16, tlog = _c16.translate_resolve(None)
+        if not ok16:
+            ok = False
+            C.log('c16tr failed: ' + tlog[-1500:])
+    except Exception as ex:
+        ok = False
+        C.log('c16tr setup failed: %r' % (ex,))
     # C11 / C12: generators that need their own overlay / x-tools module (helpers live in the check modules)
     try:
         import json as _json, tempfile, shutil
